@@ -205,10 +205,21 @@ def r4_text_and_binary(ctx: Ctx) -> None:
 
 
 
+def r5_layout_agreement(ctx: Ctx) -> None:
+    """each directive occupies exactly the number of bytes it emits (the C02.R1 obligation for the data / text / binary node classes)"""
+    terms = node_class_terms(ctx.repo)
+    for name in ("ByteNode", "WordNode", "LongNode", "PointerNode", "AsciiNode", "AbstractTextNode", "BinaryNode"):
+        if name not in terms:
+            raise AnalysisError(f"anchor missing: {name}")
+        ci, et, at, em, pa = terms[name]
+        ctx.count("layout_classes")
+        ctx.check(et == at, f"{name}:emit-vs-pc_after", f"emit() yields {et} bytes, pc_after() advances by {at}")
+
+
 def rb_binding_agreement(ctx: Ctx) -> None:
     from ..ownership import binding_agreement
 
     binding_agreement(ctx)
 
 
-RULES = [r1_field_packing, r2_directive_chain, r3_order_and_multiplicity, r4_text_and_binary, rb_binding_agreement]
+RULES = [r1_field_packing, r2_directive_chain, r3_order_and_multiplicity, r4_text_and_binary, r5_layout_agreement, rb_binding_agreement]
